@@ -27,6 +27,7 @@ type Stats struct {
 	Panics       []int          `json:"panic_cases"`  // indices of cases in which the emulator panicked
 	Samples      []Case         `json:"samples"`
 	Files        []string       `json:"files"`
+	Skipped      int            `json:"skipped"`      // cases not executed because the implementation kept wedging
 	Exhaustive   bool           `json:"exhaustive"`
 	Rule         string         `json:"rule"`
 	GenCollision int            `json:"generation_collisions"`
